@@ -209,7 +209,10 @@ impl Card {
         for m in self.misb.iter_mut() {
             if m.when == when && !m.fired {
                 m.seen += 1;
-                if m.seen == m.nth && hit.is_none() {
+                if m.nth == 0 && hit.is_none() {
+                    // nth = 0: every time (a card that always answers this way)
+                    hit = Some((m.what.clone(), m.arg));
+                } else if m.seen == m.nth && hit.is_none() {
                     m.fired = true;
                     hit = Some((m.what.clone(), m.arg));
                 }
@@ -389,7 +392,11 @@ impl Card {
             self.log.push(ev);
             return;
         }
-        if misb == "r1err" {
+        if misb == "r1crc" {
+            r1 = 0x08 | idlebit; // "communication CRC error", command not executed
+        } else if misb == "r1ill" {
+            r1 = 0x04 | idlebit; // "illegal command", command not executed
+        } else if misb == "r1err" {
             r1 = 0x20 | idlebit; // error bit set, command not executed
         } else if needs_crc && (!crcok || !endbit) {
             r1 = 0x08 | idlebit;
@@ -525,7 +532,7 @@ impl Card {
                 self.log.push(ev);
                 return;
             }
-            "r1err" => {}
+            "r1err" | "r1ill" | "r1crc" => {}
             "badecho" => {
                 if extra.len() == 4 {
                     extra[3] ^= 0xFF;
